@@ -368,7 +368,10 @@ def process_environment(hashseed):
                     "HOSTNAME": r.choice(("coco", "build-7", "localhost")),
                     "COLUMNS": str(r.choice((1, 4, 20, 80, 200))), "LINES": str(r.choice((1, 5, 24, 100))),
                     "TERM": r.choice(("dumb", "xterm-256color", "")),
-                    "LANG": r.choice(("C", "C.UTF-8", "en_US.UTF-8", "POSIX"))},
+                    "LANG": r.choice(("C", "C.UTF-8", "en_US.UTF-8", "POSIX")),
+                    "PYTHONINTMAXSTRDIGITS": r.choice(("4300", "4300", "0", "100000", "640"))},
+        # are the standard streams of command-line and decoder ops terminals?
+        "tty": r.random() < 0.25,
     }
 
 
@@ -378,6 +381,10 @@ def run_process(hashseed, ops, timeout=900, penv=None):
     env = dict(os.environ)
     env["PYTHONHASHSEED"] = str(hashseed)
     env["PYTHONDONTWRITEBYTECODE"] = "1"
+    # variables the interpreter reads at start-up must be in the child's real environment
+    for k_ in ("PYTHONINTMAXSTRDIGITS",):
+        if k_ in penv.get("environ", {}):
+            env[k_] = penv["environ"][k_]
     core = [{k: v for k, v in op.items() if k not in ("label", "oclass", "fault", "key")}
             for op in ops]
     try:
@@ -431,6 +438,7 @@ def _blame_environment(op, seed, pa, pb, ra):
             mix["environ"] = dict(pb["environ"], TZ=tz)
             mix["cpu_count"] = pb.get("cpu_count")
             mix["perm_seed"] = pb.get("perm_seed")
+            mix["tty"] = pb.get("tty")
         if _alone(op, seed, mix) != ra:
             return comp, mix
     return "combination", pb
